@@ -217,7 +217,9 @@ def sum(t, dim=None, keepdim=False, _normalize=False):
     if keepdim:
         return result
     else:
-        return tn.squeeze(result)
+        if len(dim) == t.dim():
+            return tn.squeeze(result)
+        return tn.squeeze(result, dim)
 
 
 def mean(t, dim=None, marginals=None, keepdim=False):
